@@ -258,6 +258,11 @@ func (pmt *Payment) calculate() error {
 			"currency": fmt.Errorf("required, unable to determine"),
 		}
 	}
+	if pmt.Currency.Def() == nil {
+		return validation.Errors{
+			"currency": fmt.Errorf("'%v' not defined", pmt.Currency),
+		}
+	}
 
 	for i, l := range pmt.Lines {
 		l.Index = i + 1
@@ -274,6 +279,15 @@ func (pmt *Payment) calculate() error {
 			cur := l.Document.Currency
 			if cur == currency.CodeEmpty {
 				cur = pmt.Currency
+			}
+			if cur.Def() == nil {
+				return validation.Errors{
+					"lines": validation.Errors{
+						strconv.Itoa(i): validation.Errors{
+							"document": fmt.Errorf("currency: '%v' not defined", cur),
+						},
+					},
+				}
 			}
 			l.Document.Calculate(cur, r.GetRoundingRule())
 			lt = l.Document.Tax.Clone()
